@@ -765,8 +765,8 @@ def cross_kind_hash_rule(F, R):
 def fresh_storage_rule(F, R):
     R.rule("C11.b", "a primitive that answers a new byte vector answers fresh storage: the handle of a mutable byte vector "
                     "(SteelByteVector: shared, lock-protected storage) is duplicated only by cloning the value that holds it "
-                    "(<SteelVal as Clone>::clone — the same object, by design); no other function clones the handle, so every "
-                    "SteelVal::ByteVector a primitive builds comes from SteelByteVector::new. A result that shares storage with "
+                    "(<SteelVal as Clone>::clone — the same object, by design); no other function turns a clone of the handle into a value, so "
+                    "every SteelVal::ByteVector a primitive builds comes from SteelByteVector::new. A result that shares storage with "
                     "an argument changes when the argument is edited in place (bytes-set!, bytes-push!): the sequence it was "
                     "answered for is no longer what it holds, and as a hash key it is lost")
     owners = [n for n in F.fns if re.search(r"\{impl Clone for SteelByteVector\}::clone$", n)]
@@ -783,7 +783,14 @@ def fresh_storage_rule(F, R):
         for _, b in fn.calls():
             if b["callee"] in owners:
                 n += 1
-                if not re.search(r"\{impl Clone for SteelVal\}::clone$", name):
+                if re.search(r"\{impl Clone for SteelVal\}::clone$", name):
+                    continue
+                # a clone that is only read from is harmless; one that becomes a value handed out shares storage
+                t_ = lib.tainted_locals(fn, [b["dest"]])
+                becomes_value = any(e[0] == "agg" and e[1] == "SteelVal" and e[2] == "ByteVector" and
+                                    any(x in t_ for o in e[4:] for x in lib.TOK.findall(str(o)))
+                                    for _, _, e in fn.events("agg"))
+                if becomes_value:
                     bad.append((fn, b))
     R.floor("C11.b", "clones of the byte-vector handle (the value's own Clone)", n, 1)
     R.inst("C11.b", "only <SteelVal as Clone>::clone duplicates a byte-vector handle", not bad,
